@@ -301,7 +301,7 @@ def rand_text(rng, kind):
         u = "".join(rng.choice("ab ") for _ in range(rng.randint(1, 4)))
         return (u * rng.randint(1, 12))[: rng.randint(0, 40)]
     if kind == "unicode":
-        al = "aé  中.\n b"
+        al = "aé  中.\n b" + "e\u0301o\u0308"      # incl. combining marks (decomposed accents)
         return "".join(rng.choice(al) for _ in range(rng.randint(0, 16)))
     raise ValueError(kind)
 
@@ -549,6 +549,18 @@ def describe(c):
     return {k: v for k, v in c.items()}
 
 
+def huge_case(nlines, seed):
+    la = ["line %d of the first text\n" % i for i in range(nlines)]
+    lb = list(la)
+    r3 = random.Random(seed + nlines)
+    for _ in range(12):
+        k = r3.randrange(len(lb))
+        lb[k] = "changed %d\n" % k
+    lb[0] = "a new first line\n"
+    lb[-1] = "a new last line\n"
+    return {"kind": "full", "a": "".join(la), "b": "".join(lb), "script": [], "dflt": False, "grp": "huge"}
+
+
 MY_VOS = ["theories/%s.vo" % f for f in ("DMP", "DMPBase", "DMPCommon", "DMPMerge", "DMPSemantic", "DMPMain",
                                          "DMPRealign", "DMPTotal", "DMPTotalMerge", "DMPTotalSem", "DMPTotalMain")]
 
@@ -596,6 +608,16 @@ def main(run):
         if why:
             rp = describe(c)
             viols.append({"what": why, "replay": rp})
+    # VERY many lines (oracle only: the answers are too long for the model): more distinct lines than the line-to-
+    # character encoding of diff_linesToChars has "comfortable" code points for (surrogates, > 0xFFFF)
+    nhuge = 0
+    for nlines in ((64000,) if run.tier == "quick" else (64000, 70000, 120000)):
+        c = run_impl(huge_case(nlines, run.seed))
+        nhuge += 1
+        why = oracle(c)
+        if why:
+            viols.append({"what": why[:400], "replay": {"kind": "huge", "nlines": nlines, "seed": run.seed}})
+    run.coverage["huge_line_texts_judged"] = nhuge
     viols.sort(key=lambda v: len(json.dumps(v["replay"], default=str)))
     bad, log = [], ""
     if pinfo.get("build_ok"):
@@ -692,6 +714,8 @@ def replay(run, path):
         print("replay names a broken tie, not an input:", d.get("broken"))
         return 1
     c = {k: v for k, v in d.items()}
+    if d.get("kind") == "huge":
+        c = huge_case(d["nlines"], d["seed"])
     if "d" in c:
         c["d"] = [tuple(x) for x in c["d"]]
     run_impl(c)
